@@ -58,6 +58,7 @@ def global_refs(ctx, rel, qual):
 
 
 def run(ctx):
+    integrity(ctx, ['crysp/bits.py', 'crysp/des.py', 'crysp/poly.py', 'crysp/wb.py'])
     ctx.rule('C18-R1 key independence')
     for q in ('table_M1', 'table_M2', 'table_M3', 'getrbits_T_in', 'SRLRformat', 'ERLRformat'):
         def chk(q=q):
